@@ -59,7 +59,7 @@ var v06Classes = []string{
 	"plain-evil", "userinfo-good-at-evil", "plain-good", "trailing-dot", "scheme-variant", "host-in-path",
 	"port-suffix", "userinfo-evil-at-good", "unparsable", "ipv6-mapped", "good-extended", "empty",
 	"opaque", "no-scheme", "ipv6-loopback", "no-port", "userinfo-with-ports", "wrong-scheme",
-	"name-repeated",
+	"name-repeated", "empty-host",
 }
 
 type v06Case struct {
@@ -248,6 +248,19 @@ func v06Build(c *v06Case, cfg v06Cfg, r *vlib.Rand) {
 		c.Scheme = strings.ToLower(v) // schemes are case-insensitive (RFC 3986 3.1)
 		c.Host = G
 		c.URL = fmt.Sprintf("%s://%s%s", v, v06HostPort(G, port(G)), path)
+	case "empty-host":
+		// an authority without a host: "wss://:PORT/..." designates host "" (which a
+		// dialer resolves to the local machine - the decoy on 127.0.0.1 listens on
+		// that port); only a pattern that accepts the empty name may let it pass
+		c.Host = ""
+		switch r.Intn(3) {
+		case 0:
+			c.URL = fmt.Sprintf("%s://:%d%s", sch, port("127.0.0.1"), path)
+		case 1:
+			c.URL = fmt.Sprintf("%s://user@:%d%s", sch, port("127.0.0.1"), path)
+		default:
+			c.URL = fmt.Sprintf("%s://%s", sch, path) // "wss:///c3/echo"
+		}
 	case "name-repeated":
 		// a host name that both begins and ends with the pattern's name but is not
 		// the name: outside an exact pattern, inside a suffix pattern (where it is
@@ -306,7 +319,7 @@ func v06Build(c *v06Case, cfg v06Cfg, r *vlib.Rand) {
 }
 
 func TestVerifC06c(t *testing.T) {
-	res := vlib.NewResult("C06", "inpkg-proxy-c06c", "per shard one real SnowflakeProxy with a relay pattern (exact, suffix, short digit suffix, empty) and AllowNonTLSRelay on/off is handed genuine offers with tampered relay URLs of 19 classes (in/out-of-pattern IP-literal hosts, a host name that begins and ends with the pattern's name, userinfo tricks, trailing dot, host text in path/query/fragment, port text completing the suffix, IPv6 forms, opaque, scheme variants, unparsable, empty); verdict by construction + documented pattern semantics; observed at the /answer POST and at per-case decoy listeners; non-trivial = case executed until the proxy's next poll, distinct by (pattern, non-TLS flag, class, URL)")
+	res := vlib.NewResult("C06", "inpkg-proxy-c06c", "per shard one real SnowflakeProxy with a relay pattern (exact, suffix, short digit suffix, empty) and AllowNonTLSRelay on/off is handed genuine offers with tampered relay URLs of 20 classes (in/out-of-pattern IP-literal hosts, a host name that begins and ends with the pattern's name, an authority without a host, userinfo tricks, trailing dot, host text in path/query/fragment, port text completing the suffix, IPv6 forms, opaque, scheme variants, unparsable, empty); verdict by construction + documented pattern semantics; observed at the /answer POST and at per-case decoy listeners; non-trivial = case executed until the proxy's next poll, distinct by (pattern, non-TLS flag, class, URL)")
 	defer res.Finish()
 	shard, _ := vlib.Shard()
 	root := vlib.NewRand(vlib.Seed()).Split("c06c").SplitN("shard", shard)
@@ -362,6 +375,9 @@ func TestVerifC06c(t *testing.T) {
 	}
 	if strings.HasPrefix(cfg.Pattern, "^") {
 		classes = append(classes, "name-repeated") // only equality may satisfy an exact pattern
+	}
+	if cfg.Pattern != "$" {
+		classes = append(classes, "empty-host") // every pattern but the empty suffix rejects the empty name
 	}
 	off := (shard * 5) % len(v06Classes)
 	for i := 0; len(classes) < nCases; i++ {
